@@ -6,6 +6,7 @@ scipy's minimize, warnings, exceptions) and PROPOSE certificates (reaction
 vectors, rank minors, degeneracy combinations, displaced compositions, ln / 1/x
 sensors) that spec/Trace_Equilibrium.tla verifies before it uses them.
 """
+import zlib
 import itertools
 import math
 import random
@@ -206,8 +207,14 @@ def species_spec(rnd, name, formula, g_target, T, cls='nasa', mol=None, phase='a
         other = list(active) if variant == 'same' else nasa_coeffs(rnd, g_target + rnd.uniform(-3.0, 3.0), T)
         # the fit range need not contain the temperature of the calculation (seed C16-14): NASA-7 species are
         # evaluated where they are asked, e.g. the bundled thermdat ends at 1500 K
-        s['T_low'] = rnd.choice([200.0, 300.0, 200.0, 300.0, 700.0])
-        s['T_high'] = rnd.choice([2500.0, 3000.0, 2500.0, 3000.0, 1500.0, 1100.0])
+        # (derived from the name, not drawn: the random stream - and with it every other case - stays what it was)
+        s['T_low'] = rnd.choice([200.0, 300.0])
+        s['T_high'] = rnd.choice([2500.0, 3000.0])
+        h = zlib.crc32(name.encode())
+        if h % 4 == 0:
+            s['T_high'] = 1500.0 if h % 8 == 0 else 1100.0
+        elif h % 4 == 1 and h % 3 == 0:
+            s['T_low'] = 700.0
         s['T_mid'] = 1000.0
         s['a_low'], s['a_high'] = (active, other) if T < 1000.0 else (other, active)
         s['phase'] = rnd.choice([None, None, 'G', 'gas']) if phase == 'any' else phase
